@@ -133,8 +133,8 @@ impl World {
                     std::panic::resume_unwind(p);
                 }
                 let msg = panic_message(&p);
-                if !msg.contains("Too many references") {
-                    self.fail("O-SAT.message", format!("{} on object {} at the limit panicked with an unexpected message: {}", what, o, msg));
+                if crate::exec::internal_error_message(&msg) {
+                    self.fail("O-SAT.message", format!("{} on object {} at the limit did not panic with the limit panic but with an internal error: {}", what, o, msg));
                 }
             }
         }
@@ -472,8 +472,8 @@ impl World {
                     if p.is::<Injected>() || p.is::<HarnessError>() {
                         std::panic::resume_unwind(p);
                     }
-                    if !panic_message(&p).contains("Too many references") {
-                        self.fail("O-SAT.message", format!("register at the limit panicked with an unexpected message: {}", panic_message(&p)));
+                    if crate::exec::internal_error_message(&panic_message(&p)) {
+                        self.fail("O-SAT.message", format!("register at the limit did not panic with the limit panic but with an internal error: {}", panic_message(&p)));
                     }
                     self.m.borrow_mut().objs[map_id as usize].bulk_registered += 1;
                 }
@@ -985,7 +985,7 @@ impl World {
             0 => {
                 if compat::cfg_assign(Default::default()) == CfgAccess::Ok {
                     let mut m = self.m.borrow_mut();
-                    m.cfg = Knobs { auto: true, buffered: 0, permille: 100 };
+                    m.cfg = m.fresh_cfg;
                     m.cfg_known = true;
                     m.last_threshold = 0;
                 }
@@ -1017,10 +1017,17 @@ impl World {
         if !HAS_AUTO {
             return;
         }
+        // the configuration is still the fresh one of this thread: its byte threshold is "the initial value"
+        let fresh = compat::cfg_read();
+        let initial = fresh.map_or(0, |c| c.3);
         compat::cfg_set_auto(k.auto);
         compat::cfg_set_buffered(k.buffered);
         compat::cfg_set_percent(k.permille.min(1000) as f64 / 1000.0);
         let mut m = self.m.borrow_mut();
+        m.initial_threshold = initial;
+        if let Some(c) = fresh {
+            m.fresh_cfg = Knobs { auto: c.0, buffered: c.1, permille: (c.2 * 1000.0).round() as u32 };
+        }
         m.cfg = Knobs { auto: k.auto, buffered: k.buffered, permille: k.permille.min(1000) };
         m.cfg_known = true;
     }
